@@ -157,4 +157,16 @@ example : Rs.Bitboard.is_current_in_check (toRsSide demoBoard.white) (toRsSide d
 example : Rs.PlayerState.occupancy_fn [1, 2, 3, 4, 5, 6, 7] 7 = none := by decide
 example : demoBoard.turn ≤ 1 := by decide
 
+/-! axiom audit of the remaining `rs_*` theorems of this file -/
+#print axioms rs_side_kings
+#print axioms rs_side_queens
+#print axioms rs_side_rooks
+#print axioms rs_side_bishops
+#print axioms rs_side_knights
+#print axioms rs_side_pawns
+#print axioms rs_side_full_occupancy
+#print axioms rs_side_occupancy
+#print axioms rs_opposite_turn_eq
+#print axioms rs_opposite_turn_panics
+
 end Inkayaku.Translated
